@@ -262,6 +262,40 @@ class Heap:
         self.arr[name] = arr
 
 
+def extra_param_type(default):
+    if isinstance(default, ast.Constant):
+        v = default.value
+        if isinstance(v, bool):
+            return TBool
+        if isinstance(v, int):
+            return TInt
+        if isinstance(v, float):
+            return TReal
+    return None
+
+
+_EXTRA_PARAMS = {}
+
+
+def extra_params_of(key):
+    """names of the optional parameters (constant bool / int / float default) of the real function behind a contract key"""
+    if key not in _EXTRA_PARAMS:
+        out = set()
+        try:
+            from . import front
+            path, qual = key.split('::')
+            fn = front.find_function(path, qual)[0]
+            fa = fn.args
+            pos = fa.posonlyargs + fa.args
+            for a, d in list(zip(pos[len(pos) - len(fa.defaults):], fa.defaults)) + [(a, d) for a, d in zip(fa.kwonlyargs, fa.kw_defaults) if d is not None]:
+                if extra_param_type(d) is not None:
+                    out.add(a.arg)
+        except Exception:       # noqa
+            pass
+        _EXTRA_PARAMS[key] = out
+    return _EXTRA_PARAMS[key]
+
+
 def fresh_value(ty, base):
     if ty.k == 'opt':
         inner = fresh_value(ty.a[0], base)
@@ -1366,6 +1400,8 @@ class Engine:
             raise OutOfSubset('too many arguments for %s at line %d' % (c.key, line))
         bound = dict(zip(names, args))
         for k, v in kw.items():
+            if k not in names and k not in bound and '::' in c.key and k in extra_params_of(c.key):
+                continue        # an optional parameter the callee's contract does not know: the callee is verified for every value of it
             if k not in names or k in bound:
                 raise OutOfSubset('bad keyword %s for %s at line %d' % (k, c.key, line))
             bound[k] = v
@@ -2082,6 +2118,18 @@ class Engine:
             args[pname] = v
             st.env[pname] = v
             st.pc += self.wf_param(H0, v)
+        # parameters of the real function the contract does not know (added since): with a constant default they are optional for every caller, so the
+        # contract must hold for EVERY value of the default's type (an unconstrained symbolic value); anything else is out of the subset
+        known = {pn for pn, _ in c.params}
+        fa = self.fn.args
+        pos = fa.posonlyargs + fa.args
+        extra = [(a, d) for a, d in zip(pos[len(pos) - len(fa.defaults):], fa.defaults)] + [(a, d) for a, d in zip(fa.kwonlyargs, fa.kw_defaults) if d is not None]
+        for a, d in extra:
+            if a.arg in known:
+                continue
+            ty = extra_param_type(d)
+            if ty is not None:          # otherwise: a free name if the body uses it (out of the subset)
+                st.env[a.arg] = fresh_value(ty, a.arg)
         for gv in H0.glob.values():
             st.pc += self.wf_param(H0, gv)
         Heap.MATERIALIZED = set()
